@@ -52,6 +52,8 @@ type decision struct {
 // Config bounds one harness run.
 type Config struct {
 	MaxStrLen    int  // bound used when a string's length must be made concrete
+	MaxSymLoop   int  // iterations of one loop (per activation) that each take a solver decision; 0 = 64
+	NonTermIsViolation bool // exceeding MaxSymLoop is a violation candidate (totality harnesses), not an unwinding failure
 	MaxDecisions int  // per path
 	MaxSteps     int  // per path
 	MaxPaths     int  // per harness
@@ -140,6 +142,7 @@ type HarnessResult struct {
 	Witnesses   []map[string]ModelVal // models of sampled complete paths
 	CapturesValidated int
 	RangeSites  map[string]int        // range-over-map statements executed under permutation mode with >= 2 entries
+	Notes       map[string]bool       // restrictions the engine placed on the explored inputs
 }
 
 func NewMachine(prog *ssa.Program, solver *Solver, cfg Config, hooks *Hooks) *Machine {
@@ -394,6 +397,13 @@ func (m *Machine) RunConcrete(fn *ssa.Function, model map[string]ModelVal) (trac
 
 // ---------------------------------------------------------------------------
 // path condition and decisions
+
+func (m *Machine) note(s string) {
+	if m.Res.Notes == nil {
+		m.Res.Notes = map[string]bool{}
+	}
+	m.Res.Notes[s] = true
+}
 
 func (m *Machine) assume(t *Term) {
 	if t.IsConst() {
@@ -768,11 +778,45 @@ func (m *Machine) ensureInit(p *ssa.Package) {
 
 type frame struct {
 	fn     *ssa.Function
+	visits map[*ssa.BasicBlock]*loopCount
 	regs   map[ssa.Value]Value
 	defers []func()
 	result Value
 	env    []Value
 }
+
+// small keeps the terms a program builds up step by step (a string rewritten
+// in a loop) from growing without bound: a big String/Int term is given a name,
+// a fresh variable constrained to equal it. The meaning is unchanged.
+func (m *Machine) small(v Value) Value {
+	t, ok := v.(*Term)
+	if !ok || t.Sort == SBool || t.Op == "var" || t.Op == "const" {
+		return v
+	}
+	if t.approxSize(600) < 600 {
+		return v
+	}
+	nv := m.freshVar("nm", t.Sort)
+	m.assume(Eq(nv, t))
+	return nv
+}
+
+// approxSize counts nodes up to limit.
+func (t *Term) approxSize(limit int) int {
+	n := 1
+	for _, a := range t.Args {
+		if n >= limit {
+			return n
+		}
+		n += a.approxSize(limit - n)
+	}
+	return n
+}
+
+// loopCount: how often a block was entered in one activation with at least one
+// new solver decision since the previous entry (iterations of a loop whose
+// continuation depends on symbolic data).
+type loopCount struct{ n, lastDec int }
 
 func (m *Machine) callFunction(fn *ssa.Function, args []Value) Value {
 	return m.callClosure(fn, nil, args)
@@ -949,6 +993,33 @@ func (m *Machine) constValue(c *ssa.Const) Value {
 }
 
 func (m *Machine) runBlock(fr *frame, b *ssa.BasicBlock, prev *ssa.BasicBlock) *ssa.BasicBlock {
+	// unwinding check for loops steered by symbolic data
+	if len(b.Preds) > 1 {
+		if fr.visits == nil {
+			fr.visits = map[*ssa.BasicBlock]*loopCount{}
+		}
+		lc := fr.visits[b]
+		if lc == nil {
+			lc = &loopCount{lastDec: m.pos}
+			fr.visits[b] = lc
+		} else if m.pos > lc.lastDec {
+			lc.n++
+			lc.lastDec = m.pos
+			max := m.Cfg.MaxSymLoop
+			if max == 0 {
+				max = 64
+			}
+			if lc.n > max {
+				m.Res.UnwindChecks++
+				where := m.Prog.Fset.Position(b.Instrs[0].Pos()).String()
+				if m.Cfg.NonTermIsViolation {
+					m.recordViolation("nontermination", fmt.Sprintf("a loop in %s (%s) is still running after %d iterations that each depend on the input: it does not terminate on an input of bounded size", fr.fn.String(), where, max))
+					panic(pathAbort{"unbounded loop"})
+				}
+				unsupported("UNWIND-INSUFFICIENT: a loop in %s (%s) needs more than %d input-dependent iterations", fr.fn.String(), where, max)
+			}
+		}
+	}
 	// phis are evaluated simultaneously
 	var phiVals []Value
 	nphi := 0
@@ -1019,7 +1090,7 @@ func (m *Machine) runBlock(fr *frame, b *ssa.BasicBlock, prev *ssa.BasicBlock) *
 			m.mapUpdate(m.get(fr, x.Map), m.get(fr, x.Key), m.get(fr, x.Value))
 		case *ssa.DebugRef:
 		case ssa.Value:
-			fr.regs[x] = m.eval(fr, x)
+			fr.regs[x] = m.small(m.eval(fr, x))
 		default:
 			unsupported("instruction %T", ins)
 		}
